@@ -53,6 +53,29 @@ static inline _Bool spec_pin_on_ray(int ray, uint32_t k, uint64_t occ, uint64_t 
   uint64_t sliders = enemy_q | ((ray & 1) ? enemy_r : enemy_b);
   return (sliders >> b) & 1;
 }
+/* is square sq attacked by the enemy of `side` when the own king (on k) is lifted off the board?  (squares the king may not step to)
+ * Stated attacker by attacker: some enemy pawn / knight / king / slider standing on a square s reaches sq. */
+static inline _Bool spec_forbidden_bit(uint32_t side, uint32_t sq, uint32_t k, uint64_t occ, uint64_t ep_, uint64_t en, uint64_t eb, uint64_t er, uint64_t eq, uint64_t ek)
+{
+  uint64_t blockers = occ ^ SPEC_BIT(k);
+  if (spec_pawn_attackers_of(sq, side) & ep_) return 1;
+  if (spec_knight(sq) & en) return 1;
+  if (spec_king(sq) & ek) return 1;
+  _Bool hit = 0;
+  for (uint32_t s = 0; s < 64; s++) {
+    if (((eb | eq) >> s) & 1) hit = hit || ((spec_bishop_walk(s, blockers) >> sq) & 1);
+    if (((er | eq) >> s) & 1) hit = hit || ((spec_rook_walk(s, blockers) >> sq) & 1);
+  }
+  return hit;
+}
+/* square of the piece pinned on `ray` (64 if there is no pin on that ray) */
+static inline uint32_t spec_pin_sq(int ray, uint32_t k, uint64_t occ, uint64_t own, uint64_t eq, uint64_t er, uint64_t eb)
+{ uint32_t sq; return spec_pin_on_ray(ray, k, occ, own, eq, er, eb, &sq) ? sq : 64u; }
+static inline uint64_t spec_pinned_set(uint32_t k, uint64_t occ, uint64_t own, uint64_t eq, uint64_t er, uint64_t eb)
+{ uint64_t s = 0; for (int r = 0; r < 8; r++) { uint32_t q = spec_pin_sq(r, k, occ, own, eq, er, eb); if (q != 64) s |= SPEC_BIT(q); } return s; }
+/* number of pins on rays with index below `ray` (the engine records pins in ray order) */
+static inline int spec_pin_rank(int ray, uint32_t k, uint64_t occ, uint64_t own, uint64_t eq, uint64_t er, uint64_t eb)
+{ int n = 0; for (int r = 0; r < 8; r++) if (r < ray && spec_pin_sq(r, k, occ, own, eq, er, eb) != 64) n++; return n; }
 /* ---- en passant by pawns of `side` from the set npp (the not-pinned pawns): the capture towards the e.p. square `ep` from
  * each adjacent file; it must resolve a check if there is one (captured pawn in capture_mask or e.p. square in push_mask), and when
  * exactly one pawn can capture, removing it and the captured pawn from the rank must not expose the king (on square k) to an enemy
@@ -78,9 +101,9 @@ static inline int spec_ep_count(uint32_t side, uint64_t occ, uint32_t k, uint64_
 }
 /* ---- moves of a pinned pawn standing on `from`, pinned along `ray` (only moves that stay on the pin line): the engine's rule table
  * diagonal pin towards "up-left"/"up-right": the capture in that direction if an enemy piece stands there; file pin: push, and the
- * double push from the start rank if both squares are empty; rank pin: nothing.  Last-rank arrivals as four promotions.
- * (No en-passant branch - see the C01 composition obligation.) */
-static inline int spec_pinned_pawn_count(uint32_t side, uint32_t from, int ray, uint64_t occ, uint64_t enemy, uint32_t m)
+ * direction, also onto the e.p. square (en passant along the pin line); file pin: push, and the double push from the start rank if
+ * both squares are empty; rank pin: nothing.  Last-rank arrivals as four promotions. */
+static inline int spec_pinned_pawn_count(uint32_t side, uint32_t from, int ray, uint64_t occ, uint64_t enemy, uint32_t ep, uint32_t m)
 {
   uint32_t f = spec_move_from(m), t = spec_move_to(m), pr = spec_move_promo(m);
   if (spec_move_ccode(m) != 0 || (m >> 17) != 0 || f != from) return 0;
@@ -90,14 +113,74 @@ static inline int spec_pinned_pawn_count(uint32_t side, uint32_t from, int ray, 
   _Bool ok = 0;
   int d = (int)t - (int)from;
   switch (ray & 3) {
-  case 0: ok = d == upleft && left_ok && ((enemy >> t) & 1); break;
+  case 0: ok = d == upleft && left_ok && (((enemy >> t) & 1) || (rel != 6 && t == ep)); break;
   case 1: if (d == up) ok = !((occ >> t) & 1);
           else if (d == 2 * up && rel == 1) return pr == 0 && !((occ >> (from + up)) & 1) && !((occ >> t) & 1);
           break;
-  case 2: ok = d == upright && right_ok && ((enemy >> t) & 1); break;
+  case 2: ok = d == upright && right_ok && (((enemy >> t) & 1) || (rel != 6 && t == ep)); break;
   default: break; }
   if (!ok) return 0;
   if (rel == 6) return pr >= 2 && pr <= 5;
   return pr == 0;
 }
+
+/* ================= the check-mask / pin algorithm as a predicate on one move (intermediate specification) =================
+ * Square sets are taken from the mailbox board.  For the side to move: checkers, capture/push masks, pinned set; a move is
+ * produced iff one of the leaf rules above produces it under these masks.  C01 = (engine == this predicate) + (this predicate ==
+ * the rules of chess, sp_legal). */
+#ifdef SPEC_POS_H
+static inline uint64_t alg_set(const sp_pc *b, uint32_t pc) { uint64_t o = 0; for (uint32_t s = 0; s < 64; s++) if (b[s] == pc) o |= SPEC_BIT(s); return o; }
+static inline uint64_t alg_colour(const sp_pc *b, uint32_t c) { uint64_t o = 0; for (uint32_t s = 0; s < 64; s++) if (b[s] != 0 && sp_colour(b[s]) == c) o |= SPEC_BIT(s); return o; }
+static inline uint32_t alg_lsb(uint64_t x) { uint32_t r = 64; for (int s = 63; s >= 0; s--) if ((x >> s) & 1) r = (uint32_t)s; return r; }
+static inline int spec_alg_count(const SPos *P, uint32_t m)
+{
+  const sp_pc *b = P->board; uint32_t side = P->side, en = 1 - side;
+  uint64_t own = alg_colour(b, side), enemy = alg_colour(b, en), occ = own | enemy;
+  uint64_t ep_ = alg_set(b, sp_piece(en, 1)), enn = alg_set(b, sp_piece(en, 2)), eb = alg_set(b, sp_piece(en, 3)), er = alg_set(b, sp_piece(en, 4)),
+           eq = alg_set(b, sp_piece(en, 5)), ek = alg_set(b, sp_piece(en, 6));
+  uint32_t k = sp_king_sq(b, side);
+  uint32_t f = spec_move_from(m), t = spec_move_to(m), pr = spec_move_promo(m), cc = spec_move_ccode(m);
+  _Bool plain = cc == 0 && pr == 0 && (m >> 17) == 0;
+  if ((m >> 17) != 0) return 0;
+  uint64_t checkers = (spec_pawn_attackers_of(k, side) & ep_) | (spec_knight(k) & enn) | (spec_bishop_walk(k, occ) & (eb | eq)) | (spec_rook_walk(k, occ) & (er | eq));
+  _Bool king_move = plain && f == k && ((spec_king(k) >> t) & 1) && !((own >> t) & 1) && !spec_forbidden_bit(side, t, k, occ, ep_, enn, eb, er, eq, ek);
+  uint64_t push_mask, capture_mask;
+  if (checkers) {
+    if (checkers & (checkers - 1)) return king_move;
+    capture_mask = checkers;
+    uint32_t cs = alg_lsb(checkers); uint32_t ck = sp_kind(b[cs]);
+    push_mask = (ck == 3 || ck == 4 || ck == 5) ? (spec_segment(k, cs) ^ SPEC_BIT(k) ^ SPEC_BIT(cs)) : 0;
+  } else { push_mask = ~occ; capture_mask = enemy; }
+  uint64_t pinned = spec_pinned_set(k, occ, own, eq, er, eb);
+  uint64_t target = capture_mask | push_mask;
+  int cnt = 0;
+  cnt += spec_pawn_count(side, alg_set(b, sp_piece(side, 1)) & ~pinned, ~occ, push_mask, capture_mask, m);
+  if (plain && ((own >> f) & 1) && !((pinned >> f) & 1)) {
+    uint32_t kd = sp_kind(b[f]);
+    uint64_t att = kd == 2 ? spec_knight(f) : kd == 3 ? spec_bishop_walk(f, occ) : kd == 4 ? spec_rook_walk(f, occ) : kd == 5 ? spec_queen_walk(f, occ) : 0;
+    if ((att & target) >> t & 1) cnt++;
+  }
+  if (P->ep != SP_NONE) cnt += spec_ep_count(side, occ, k, alg_set(b, sp_piece(en, 4)) | eq, alg_set(b, sp_piece(side, 1)) & ~pinned, push_mask, capture_mask, P->ep, m);
+  if (king_move) cnt++;
+  if (!checkers) {
+    for (int r = 0; r < 8; r++) {
+      uint32_t q = spec_pin_sq(r, k, occ, own, eq, er, eb);
+      if (q != 64 && cc == 0 && f == q) {
+        uint32_t kd = sp_kind(b[q]);
+        if (kd == 1) cnt += spec_pinned_pawn_count(side, q, r, occ, enemy, P->ep, m);
+        else if (kd != 2) {
+          _Bool allowed = kd == 5 || (kd == 3 && (r & 1) == 0) || (kd == 4 && (r & 1) == 1);
+          if (allowed && plain && (((spec_walk_line(r, q, occ) & target) >> t) & 1)) cnt++;
+        }
+      }
+    }
+    uint32_t h = sp_home(side);
+    _Bool f_att = spec_forbidden_bit(side, h + 5, k, occ, ep_, enn, eb, er, eq, ek), g_att = spec_forbidden_bit(side, h + 6, k, occ, ep_, enn, eb, er, eq, ek);
+    _Bool c_att = spec_forbidden_bit(side, h + 2, k, occ, ep_, enn, eb, er, eq, ek), d_att = spec_forbidden_bit(side, h + 3, k, occ, ep_, enn, eb, er, eq, ek);
+    if (m == (1u << 15) && ((P->rights >> (2 * side)) & 1) && !f_att && !g_att && !((occ >> (h + 5)) & 1) && !((occ >> (h + 6)) & 1)) cnt++;
+    if (m == (2u << 15) && ((P->rights >> (2 * side + 1)) & 1) && !c_att && !d_att && !((occ >> (h + 2)) & 1) && !((occ >> (h + 3)) & 1) && !((occ >> (h + 1)) & 1)) cnt++;
+  }
+  return cnt;
+}
+#endif
 #endif
